@@ -298,7 +298,9 @@ func raceMode(run *vk.Run, lines []string) {
 		fr := regexp.MustCompile(`filippo\.io/age[^\s(]*\.[A-Za-z(*).]+`).FindString(first)
 		run.Violation("C20:data-race:"+fr, fmt.Sprintf("%d data race reports while goroutines shared one recipient/identity value; first report:\n%s", nrep, truncate(first, 1500)), map[string]interface{}{"check": "C20.race", "report": filepath.Join(vk.VerifRoot(), "replays", "C20", "race-report.txt")})
 	}
-	if strings.Contains(string(out), "WRONG-RESULT") {
+	if strings.Contains(string(out), "DEADLOCK ") {
+		run.Violation("C20:deadlock-under-concurrency", truncate(string(out), 1200), map[string]interface{}{"check": "C20.race"})
+	} else if strings.Contains(string(out), "WRONG-RESULT") {
 		run.Violation("C20:wrong-result-under-concurrency", truncate(string(out), 1200), map[string]interface{}{"check": "C20.race"})
 	} else if err != nil && nrep == 0 {
 		vk.Infra("race driver failed: %v\n%s", err, truncate(string(out), 2000))
